@@ -31,6 +31,7 @@ func init() {
 			{ID: "C15.R12", Text: "every end of a vBucket's stream reaches the end listener while the stream is open: End forwards ⇔ ¬endClosed and never writes the switch itself (same rule as C12.R4)", Run: c12r4},
 			{ID: "C15.R13", Text: "a stream that cannot be opened is reported to the fail-stop logic: openStream makes one request and returns its outcome — no loop, no sleep", Run: openOnce},
 			{ID: "C15.R14", Text: "open-all waits for all: every opener signals Done exactly once on every non-panicking path, Add(len(vbIDs)), Wait before return — and the same for the concurrent checkpoint load", Run: workersSignal("stream.stream).openAllStreams", "couchbase.cbMetadata).Load")},
+			{ID: "C15.R15", Text: "a checkpoint that cannot be read stops the start-up, a missing one does not (same rule as C02.R17)", Run: cbLoadReader},
 			{ID: "C15.R6", Text: "bounded reopen then fail-stop (same rule as C12.R3)", Run: c12r3},
 		},
 	})
@@ -151,6 +152,26 @@ func c15r2(c *Ctx, id string) {
 				}
 			})
 		}
+	}
+	// the bucket identity the checkpoints are stamped with: a configuration snapshot that cannot be read is fatal
+	for _, fn := range w.ModFuncs {
+		if fn.Pkg == nil || !strings.HasSuffix(fn.Pkg.Pkg.Path(), "/stream") {
+			continue
+		}
+		allInstrs(fn, func(in ssa.Instruction) {
+			call, ok := in.(*ssa.Call)
+			if !ok || !isInvokeOf(call.Common(), "Client", "GetDcpAgentConfigSnapshot") {
+				return
+			}
+			c.see(fn)
+			var cont ssa.Instruction
+			allInstrs(fn, func(x ssa.Instruction) {
+				if cc := callOf(x); cc != nil && cc.StaticCallee() != nil && cc.StaticCallee().Name() == "BucketUUID" {
+					cont = x
+				}
+			})
+			fatalErr(c, id, "Client.GetDcpAgentConfigSnapshot@"+fname(fn), call, cont)
+		})
 	}
 	// couchbase backend: xattr read
 	cbl := w.Method("couchbase", "cbMetadata", "Load")
@@ -509,4 +530,24 @@ func c15r8(c *Ctx, id string) {
 	if n == 0 {
 		c.Fail(id, "missing-position@"+fname(os), os.Pos(), "openStream has no failing return for a vBucket without a position")
 	}
+	// and the request itself is made only with a position that was found
+	allInstrs(os, func(in ssa.Instruction) {
+		cc := callOf(in)
+		if cc == nil || !isInvokeOf(cc, "Client", "OpenStream") {
+			return
+		}
+		found := guardedBy(in.Block(), true, func(v ssa.Value) bool {
+			ex, isEx := v.(*ssa.Extract)
+			if !isEx || ex.Index != 1 {
+				return false
+			}
+			call, isCall := ex.Tuple.(*ssa.Call)
+			if !isCall {
+				return false
+			}
+			m, recv := csmapMethod(call.Common())
+			return m == "Load" && w.isOffsetMap(recv.Type())
+		})
+		c.Check(found, id, "request-with-position@"+fname(os), in.Pos(), "Client.OpenStream is called only when the position lookup succeeded", "Client.OpenStream is called on a path where the position lookup did not succeed")
+	})
 }
